@@ -411,6 +411,40 @@ def cmp_bounds(b, block):
                 op = {'Lt': 'Gt', 'Gt': 'Lt', 'Le': 'Ge', 'Ge': 'Le'}.get(op, op)
             else:
                 return None
+            # `count() - 1 > 1` is a test on count(): see through +/- constant on the tested side
+            for _hop in range(4):
+                xl = op_local(x)
+                if xl is None:
+                    break
+                d_ = b.single_def(xl)
+                if d_ is None or d_[1] != 'assign' or d_[2]['place']['p']:
+                    break
+                rv_ = d_[2]['rv']
+                if rv_['k'] == 'use' and rv_['op']['k'] in ('copy', 'move'):
+                    pl_ = rv_['op']['place']
+                    if not pl_['p']:
+                        x = rv_['op']
+                        continue
+                    if len(pl_['p']) == 1 and pl_['p'][0]['k'] == 'field' and pl_['p'][0]['i'] == 0:
+                        d2 = b.single_def(pl_['l'])
+                        if d2 and d2[1] == 'assign' and d2[2]['rv']['k'] == 'binop' and d2[2]['rv']['op'].endswith('WithOverflow'):
+                            rv_ = d2[2]['rv']
+                        else:
+                            break
+                    else:
+                        break
+                if rv_['k'] == 'binop' and rv_['op'].replace('WithOverflow', '') in ('Add', 'Sub'):
+                    ca_, cb_ = b.const_eval(rv_['a']), b.const_eval(rv_['b'])
+                    base_ = rv_['op'].replace('WithOverflow', '')
+                    if cb_ is not None and ca_ is None:
+                        k = k + cb_ if base_ == 'Sub' else k - cb_
+                        x = rv_['a']
+                        continue
+                    if ca_ is not None and cb_ is None and base_ == 'Add':
+                        k = k - ca_
+                        x = rv_['b']
+                        continue
+                break
             tb = {'Lt': ((-INF, k - 1), (k, INF)), 'Le': ((-INF, k), (k + 1, INF)), 'Gt': ((k + 1, INF), (-INF, k)),
                   'Ge': ((k, INF), (-INF, k - 1)), 'Eq': ((k, k), (-INF, INF)), 'Ne': ((-INF, INF), (k, k))}.get(op)
             if tb is None:
